@@ -35,6 +35,9 @@ pub mod sa;
 pub mod sa_checks;
 pub mod sa_meta;
 pub mod c09;
+pub mod c15;
+pub mod sb;
+pub mod sb_checks;
 pub mod sc;
 pub mod workload;
 pub mod referee;
